@@ -10,13 +10,14 @@ import (
 func init() {
 	register("C15", "PolicyEngine answers depend on current objects only, not on update history", func(p *core.Program, r *core.Report) {
 		r.Explanation = "Structural necessary conditions of history-independence, decided on the source for every update history at once: " +
-			"(E4a) every write to engine state read by CheckIfAllowed is followed/preceded, on every path to a normal return, by an invalidation of the result cache; " +
+			"(E4a) every write to engine state read by CheckIfAllowed is followed/preceded, on every path to every return (error returns included: a failed call leaves its writes behind), by an invalidation of the result cache - directly or through a callee all of whose paths invalidate; one exit is excepted as infeasible and its premise is rule E4a-scan (the exposure pre-scan creates errors only under a non-nil destination peer and passes nil); " +
 			"(E4b) every exported entry of package eval that adds an admin network policy returns with the slice sorted by priority; " +
 			"(E2) the delete paths dereference nothing that is nil when the object is absent; " +
 			"(C15-d-store) a verdict is stored in the result cache only by the function that looked the key up, under the same key, and is exactly what that function returns next with a nil error; a hit returns the cached value unchanged; " +
 			"(C15-d-key) the key is (owner key of src, owner key of dst, protocol, port) in this order, the owner key holds namespace, owner name and label variant, the variant is always the hash of the labels given to the same pod, and the hashed text is an entry-delimited encoding of the whole label map. " +
 			"NOT decided: the answers themselves, correctness of deleteWorkload's substring matching, lru eviction, verdict changes through pod fields outside the cache key."
 		rules.CacheInvalidation(p, r)
+		rules.PreScanCannotFail(p, r, "E4a-scan")
 		rules.SortedTypestate(p, r)
 		// (E2) nil rules restricted to the functions reachable from DeleteObject ("deleting an absent object is a no-op, not a crash")
 		if del := p.Func(core.PkgEval, "PolicyEngine", "DeleteObject"); del != nil {
